@@ -464,7 +464,8 @@ def helper_rule(rep, prog, cfg, flavour, b, g, fl, zero_t, region):
 
 def connect_rule(rep, prog, cfg, fn, flavour):
     rule = "C10.connect"
-    b = logic_body(prog, fn, {GREETING})
+    from ..common import logic_or_inlined
+    b = logic_or_inlined(prog, fn, {GREETING})       # the greeting parse may sit in a private helper (`parse_greeting`)
     if b is None:
         rep.fail(rule + ".anchor", "%s/%s" % (cfg, flavour), fn, "no body of %s calls parser::greeting" % fn)
         return
